@@ -38,6 +38,8 @@ CFG = {
     'eqR': list(range(1, 17, 3)) + [],      # range 1,4,..,16 with the same end points as eqA/eqB (6 entries)
     'eqC': list(range(1, 25, 2)),           # range 1..23 step 2 (12 entries) and
     'eqD': [1, 2, 5, 7, 9, 10, 13, 15, 17, 20, 21, 23],   # an irregular list with the same length and end points (and (last-first) % (n-1) == 0)
+    'gcd2': [1, 5, 11, 15, 21, 25, 31, 35, 41],   # differences 4 and 6: the common spacing 2 is smaller than the smallest gap
+    'gcd3': [3, 9, 18, 24, 30, 39, 45, 54, 60, 66],   # differences 6 and 9: common spacing 3
     'evs': list(range(4, 13, 2)),         # suffix of ev: a strided range that starts later than a same-step partner
     'evp': list(range(6, 17, 2)),         # same step as ev, partly overlapping, union is again a range
     'c20': list(range(1, 21)),            # longer contiguous chain
@@ -84,6 +86,8 @@ LAYOUTS_QUICK = [
     {'A': 'c12', 'A|r2': 'c8'},            # a bare chain name is a replica of the ensemble of the same name
     {'A|r1': 'evs'},
     {'A|r1': 'evp'},
+    {'A|r1': 'gcd2'},
+    {'A|r1': 'gcd3', 'A|r2': 'c12'},
 ]
 LAYOUTS_MORE = [
     {'A|r1': 's3'},
